@@ -25,6 +25,8 @@ pub struct Resource<T: 'static> {
     scopes: Signal<Vec<SuspenseScope>>,
     /// A list of suspense guards that are currently active.
     guards: Signal<Vec<SuspenseTaskGuard>>,
+    /// Whether the resource is ever fetched here. A client resource is not fetched on the server.
+    fetches: bool,
 }
 
 impl<T: 'static> Resource<T> {
@@ -40,11 +42,13 @@ impl<T: 'static> Resource<T> {
             refetch: create_signal(Box::new(move || refetch().boxed_local())),
             scopes: create_signal(Vec::new()),
             guards: create_signal(Vec::new()),
+            fetches: false,
         }
     }
 
     /// Attach handlers to always call the refetch function to get the latest value.
-    fn always_refetch(self) -> Self {
+    fn always_refetch(mut self) -> Self {
+        self.fetches = true;
         // The number of fetches started so far, to tell whether a fetch is still the latest one.
         let started = std::rc::Rc::new(std::cell::Cell::new(0u32));
         create_effect(move || {
@@ -99,8 +103,13 @@ impl<T: 'static> Deref for Resource<T> {
         // If we are already loading, add a new suspense guard. Otherwise, register the scope so
         // that we can create a new guard when loading.
         if self.is_loading.get() {
-            let guard = SuspenseTaskGuard::new();
-            self.guards.update(|guards| guards.push(guard));
+            // A resource that is not fetched here (a client resource on the server) stays in the
+            // loading state for ever: nothing would ever release the guard, and the suspense
+            // boundary would never resolve.
+            if self.fetches {
+                let guard = SuspenseTaskGuard::new();
+                self.guards.update(|guards| guards.push(guard));
+            }
         } else if let Some(scope) = try_use_context::<SuspenseScope>() {
             self.scopes.update(|scopes| scopes.push(scope));
         }
